@@ -26,11 +26,13 @@ Proved here, for **all** command values:
   constructor does not panic (documented panics), string parameters are accepted by the builder
   and outside the known-finding class K1 of C06, tags have a name `Tag::try_from` accepts, filters
   are as in `C11_partial` (built by the API, MPD-readable tags, outside K2, no LF/NUL), and every
-  duration sent as a time is rendered within 1 ms (`durOk`, see `C15_seek_duration`).
+  duration sent as a time is rendered within 1 ms (`durOk`; by `C15_seek_duration` this holds for
+  every duration below 2^43 s, i.e. outside the known-finding class K4: `C15_safe_of_classes`).
 * `C15_panic_iff` — `command` panics exactly on the documented constructor panics and when a
   string / tag / filter value contains LF or NUL (`Command::argument` is documented to panic).
 * `C15_range`, `C15_range_at_max`, `C15_range_malformed_empty` + witnesses — range normalisation.
-* `C15_setvol`, `C15_crossfade`, `C15_seek_duration`, `C15_seek_duration_rounding` — numeric clauses.
+* `C15_setvol`, `C15_crossfade`, `C15_seek_duration` (full binary64 error analysis below 2^43 s),
+  `C15_seek_duration_rounding`, `C15_K4_witness` — numeric clauses.
 * `C15_single_spelling`, `C15_replay_gain_spelling`, `C15_sticker_op_spelling` — enum keywords.
 -/
 namespace Mpd.C15
@@ -322,11 +324,38 @@ theorem C15_seek_duration_partial (d : Dur) (h : durOk d = true) :
     (ArgSem.time none (nanosOf d)).accepts d.render = true :=
   ⟨readDecimal_renderDuration _ _, accepts_dur d h⟩
 
+/-- **C15 (durations).** Every `Duration` below 2^43 s (≈ 279 000 years) — that is, every duration
+outside the known-finding class K4 — is rendered within 1 ms of its exact value: the class
+`durOk` of `C15` contains all of them.  This is the complete error analysis of
+`write!("{:.3}", d.as_secs_f64())` on the exact binary64 emulation (`secs as f64` is exact,
+`nanos as f64 / 1e9` is within 2^-54, the addition within 2^-11 s, the decimal rounding within
+0.5 ms; `F64L.millisRendered_within`).  The bound 2^43 is sharp: `C15_K4_witness`. -/
+theorem C15_seek_duration (d : Dur) (ht : d.typed = true) (hk : d.isK4 = false) : durOk d = true := by
+  simp only [Dur.typed, Bool.and_eq_true, decide_eq_true_eq] at ht
+  simp only [Dur.isK4, decide_eq_false_iff_not, ge_iff_le, Nat.not_le] at hk
+  rw [durOk_iff]
+  have := F64L.millisRendered_within d.secs d.nanos (by simpa using hk) ht.2
+  simpa [nanosOf] using this
+
+/-- `safe` from the class predicates alone: typed parameters, no documented constructor panic,
+strings accepted and outside K1, tags with a `try_from` name, filters as in `C11_partial`,
+durations outside K4 -/
+theorem C15_safe_of_classes (c : PCmd) (ht : c.typed = true) (hp : ctorPanics c = false)
+    (hs : ∀ s ∈ c.strings, C06.accepted s ∧ isK1 s = false) (htag : ∀ t ∈ c.tags, tagOk t = true)
+    (hf : ∀ f ∈ c.filters, filterOk f = true) (hd : ∀ d ∈ c.durs, d.isK4 = false) : safe c = true := by
+  simp only [safe, Bool.and_eq_true, Bool.not_eq_true', List.all_eq_true]
+  refine ⟨⟨⟨⟨⟨ht, hp⟩, ?_⟩, htag⟩, hf⟩, ?_⟩
+  · intro s hsm
+    simp only [strOk, Bool.and_eq_true, decide_eq_true_eq, Bool.not_eq_true']
+    exact hs s hsm
+  · intro d hdm
+    exact C15_seek_duration d (durs_typed c ht d hdm) (hd d hdm)
+
 /-- **C15 (durations, the decimal rounding step, all durations).** The printed thousandths are the
 round-half-even of 1000 × the binary64 value of `as_secs_f64()`: `|t − 1000·h| ≤ 1/2`.  (The
-remaining step, `|h − exact seconds|`, is the binary64 rounding of `as_secs_f64`; it is below
-2^-18 s for durations under 2^32 s; from 2^43 s on the binary spacing is 2^-9 s and the total can
-exceed 1 ms — known finding K4.) -/
+remaining step, `|h − exact seconds|`, is the binary64 rounding of `as_secs_f64`: below 2^43 s it
+is at most 2^-11 s (`C15_seek_duration`); from 2^43 s on the binary spacing is 2^-9 s and the
+total can exceed 1 ms — known finding K4.) -/
 theorem C15_seek_duration_rounding (d : Dur) :
     let h := F64L.asSecsF64 d.secs d.nanos
     let t := F64.millisRendered d.secs d.nanos
